@@ -229,4 +229,54 @@ def mTokens (sq : Bool) (s : Str) : Option (List (Bool × Str)) := mTokensAux sq
 
 def splitM (sq : Bool) (s : Str) : Option (List Str) := (mTokens sq s).map (·.map (·.2))
 
+/-! ### mixed command lines as callers write them
+
+An argument is written as one or more *segments* without whitespace between
+them: `Seg.q a` is the argument text `a` quoted by the documented rules
+(`quote sq a`), `Seg.w s` is the text `s` written as it is (`--using=`,
+`*.py`, `C:\dir`).  Arguments are laid out with whitespace in front of each. -/
+
+inductive Seg
+  | q (a : Str)
+  | w (s : Str)
+  deriving DecidableEq, Repr
+
+/-- what is written on the command line -/
+def Seg.text (sq : Bool) : Seg → Str
+  | .q a => quote sq a
+  | .w s => s
+
+/-- what the segment contributes to the argument -/
+def Seg.val : Seg → Str
+  | .q a => a
+  | .w s => s
+
+def itemText (sq : Bool) (it : List Seg) : Str := (it.map (Seg.text sq)).flatten
+
+def itemVal (it : List Seg) : Str := (it.map Seg.val).flatten
+
+/-- `quoted` flag of the token: the argument starts with a quoted segment -/
+def itemQuoted : List Seg → Bool
+  | .q _ :: _ => true
+  | _ => false
+
+/-- (whitespace-before, argument) pairs laid out one after the other -/
+def layout (sq : Bool) : List (Str × List Seg) → Str
+  | [] => []
+  | (sep, it) :: r => sep ++ (itemText sq it ++ layout sq r)
+
+/-- a character allowed in an unquoted segment: outside the quoting syntax, or
+a backslash (which is literal when no quote follows its run) -/
+def wordChar (sq : Bool) (c : Char) : Bool := plain sq c || c = '\\'
+
+/-- an unquoted segment is non-empty and made of `wordChar`s; when another
+segment follows directly (no whitespace) it must not end in a backslash — the
+backslash would otherwise escape, or be halved before, the opening quote of
+the next segment. -/
+def itemOk (sq : Bool) : List Seg → Bool
+  | [] => true
+  | .q _ :: r => itemOk sq r
+  | .w s :: r =>
+    !s.isEmpty && s.all (wordChar sq) && (r.isEmpty || s.getLast? != some '\\') && itemOk sq r
+
 end BreezyVerif.C50
